@@ -42,6 +42,11 @@ where
   {
     *self.on_finalize.write().unwrap() =
       Some(FunctionWrapper::new(move |_| f()));
+    if !self.subscriber.is_subscribed() {
+      // the stream has already ended, nothing would run the action any more (e.g. a
+      // scheduler created for an observer whose operator had finished while subscribing)
+      self.finalize();
+    }
   }
 
   pub fn new_observer<XItem, Next, Error, Complete>(
